@@ -12,8 +12,67 @@ import (
 	"fmt"
 	"go/ast"
 	"regexp"
+	"sort"
 	"strings"
 )
+
+// exported function -> (classification in the C20 path table, expected skeleton)
+var c20Class = map[string][2]string{
+	"File.CalcCellValue":           {"unmodelled: calculation engine (C08/C09)", ""},
+	"File.GetCellValue":            {"pathGetString", "getCellStringFunc"},
+	"File.GetCellType":             {"pathGetString", "getCellStringFunc"},
+	"File.SetCellValue":            {"pathPrepare (dispatches to the typed setters)", "setCellIntFunc setCellTimeFunc"},
+	"File.SetCellInt":              {"pathPrepare", "prepareCell"},
+	"File.SetCellUint":             {"pathPrepare", "prepareCell"},
+	"File.SetCellBool":             {"pathPrepare", "prepareCell"},
+	"File.SetCellFloat":            {"pathPrepare", "prepareCell"},
+	"File.SetCellStr":              {"pathPrepare", "prepareCell setCellString"},
+	"File.SetCellDefault":          {"pathPrepare", "prepareCell"},
+	"File.GetCellFormula":          {"pathGetString", "getCellFormula"},
+	"File.SetCellFormula":          {"pathPrepare", "prepareCell"},
+	"File.GetCellHyperLink":        {"pathLinkGet", "SplitCellName mergeCellsParser"},
+	"File.SetCellHyperLink":        {"pathLinkSet", "SplitCellName mergeCellsParser"},
+	"File.GetCellRichText":         {"pathRichGet", "mergeCellsParser CellNameToCoordinates getCell"},
+	"File.SetCellRichText":         {"pathPrepare", "prepareCell"},
+	"File.SetSheetRow":             {"unmodelled: setSheetCells (decode of the start cell, then typed setters)", ""},
+	"File.SetSheetCol":             {"unmodelled: setSheetCells (decode of the start cell, then typed setters)", ""},
+	"File.AddChart":                {"pathDirect (skeleton pinned; not exercised by the paths op)", "CellNameToCoordinates"},
+	"File.DeleteChart":             {"pathDirect (skeleton pinned; not exercised by the paths op)", "CellNameToCoordinates"},
+	"File.GetColVisible":           {"Ref.columnNameToNumber (codec theorems; skeleton pinned; API not exercised)", "ColumnNameToNumber"},
+	"File.SetColVisible":           {"unmodelled: column range \"A:C\" through parseColRange", ""},
+	"File.GetColOutlineLevel":      {"Ref.columnNameToNumber (codec theorems; skeleton pinned; API not exercised)", "ColumnNameToNumber"},
+	"File.SetColOutlineLevel":      {"Ref.columnNameToNumber (codec theorems; skeleton pinned; API not exercised)", "ColumnNameToNumber"},
+	"File.SetColStyle":             {"unmodelled: column range \"A:C\" through parseColRange", "CoordinatesToCellName CoordinatesToCellName"},
+	"File.SetColWidth":             {"unmodelled: column range \"A:C\" through parseColRange", ""},
+	"File.GetColStyle":             {"Ref.columnNameToNumber (codec theorems; skeleton pinned; API not exercised)", "ColumnNameToNumber"},
+	"File.GetColWidth":             {"Ref.columnNameToNumber (codec theorems; skeleton pinned; API not exercised)", "ColumnNameToNumber"},
+	"File.InsertCols":              {"Ref.columnNameToNumber (codec theorems; skeleton pinned; API not exercised)", "ColumnNameToNumber"},
+	"File.RemoveCol":               {"Ref.columnNameToNumber (codec theorems; skeleton pinned; API not exercised)", "ColumnNameToNumber CellNameToCoordinates"},
+	"File.DeleteDataValidation":    {"unmodelled here: RefMulti.flatSqref / squashSqref are modelled as helpers, the API belongs to C18", ""},
+	".SplitCellName":               {"codec (Ref)", ""},
+	".JoinCellName":                {"codec (Ref)", ""},
+	".CellNameToCoordinates":       {"codec (Ref)", "SplitCellName ColumnNameToNumber"},
+	"File.MergeCell":               {"mergeCellRef", "rangeRefToCoordinates CoordinatesToCellName CoordinatesToCellName"},
+	"File.UnmergeCell":             {"mergeCellRef", "rangeRefToCoordinates rangeRefToCoordinates"},
+	"File.AddPicture":              {"delegates to AddPictureFromBytes", ""},
+	"File.AddPictureFromBytes":     {"pathDirect", "CellNameToCoordinates"},
+	"File.GetPictures":             {"pathDirect", "CellNameToCoordinates"},
+	"File.DeletePicture":           {"pathDirect (skeleton pinned; not exercised by the paths op)", "CellNameToCoordinates"},
+	"File.InsertPageBreak":         {"unmodelled", ""},
+	"File.RemovePageBreak":         {"pathDirect (skeleton pinned; not exercised by the paths op)", "CellNameToCoordinates"},
+	"File.SetSheetDimension":       {"Ref.rangeRefToCoordinates (decoder theorems; skeleton pinned; API not exercised)", "CellNameToCoordinates rangeRefToCoordinates"},
+	"File.AddIgnoredErrors":        {"unmodelled", ""},
+	"StreamWriter.SetRow":          {"unmodelled: stream writer (C11)", "CellNameToCoordinates CoordinatesToCellName"},
+	"StreamWriter.InsertPageBreak": {"unmodelled", ""},
+	"StreamWriter.MergeCell":       {"unmodelled: stream writer (C11)", "cellRefsToCoordinates"},
+	"File.GetCellStyle":            {"pathDirect", "CellNameToCoordinates getCell"},
+	"File.SetCellStyle":            {"pathDirect", "CellNameToCoordinates CellNameToCoordinates"},
+	"File.SetConditionalFormat":    {"unmodelled", ""},
+	"File.UnsetConditionalFormat":  {"unmodelled", ""},
+	"File.AutoFilter":              {"Ref.rangeRefToCoordinates (decoder theorems; skeleton pinned; API not exercised)", "rangeRefToCoordinates"},
+	"File.DeleteComment":           {"pathCommentDel", "CellNameToCoordinates CoordinatesToCellName deleteFormControl"},
+	"File.DeleteFormControl":       {"pathDirect (skeleton pinned; not exercised by the paths op)", "deleteFormControl"},
+}
 
 var c20Callees = map[string]bool{
 	"SplitCellName": true, "JoinCellName": true, "mergeCellsParser": true, "prepareCell": true,
@@ -87,6 +146,60 @@ func c20Skeleton(fd *ast.FuncDecl) string {
 	return strings.Join(out, " ")
 }
 
+// parameter names by which an exported function takes a cell, column or range string
+var c20RefParam = regexp.MustCompile(`^(cell|topLeftCell|bottomRightCell|hCell|vCell|rangeRef|reference|sqref|col|startCol|endCol|columns|ref|axis|firstCell|lastCell)$`)
+
+// c20Discover lists every exported function or *File method with a string parameter named like a
+// cell / column / range reference, with its skeleton.
+func c20Discover() [][2]string {
+	var out [][2]string
+	var names []string
+	for n := range files {
+		names = append(names, n)
+	}
+	sort.Strings(names)
+	for _, n := range names {
+		for _, d := range files[n].Decls {
+			fd, ok := d.(*ast.FuncDecl)
+			if !ok || fd.Body == nil || !fd.Name.IsExported() {
+				continue
+			}
+			recv := ""
+			if fd.Recv != nil && len(fd.Recv.List) == 1 {
+				t := fd.Recv.List[0].Type
+				if st, ok := t.(*ast.StarExpr); ok {
+					t = st.X
+				}
+				if id, ok := t.(*ast.Ident); ok {
+					recv = id.Name
+				}
+			}
+			if recv != "" && recv != "File" && recv != "StreamWriter" {
+				continue
+			}
+			hit := false
+			for _, p := range fd.Type.Params.List {
+				id, ok := p.Type.(*ast.Ident)
+				if e, isEll := p.Type.(*ast.Ellipsis); isEll {
+					id, ok = e.Elt.(*ast.Ident)
+				}
+				if !ok || id.Name != "string" {
+					continue
+				}
+				for _, nm := range p.Names {
+					if c20RefParam.MatchString(nm.Name) {
+						hit = true
+					}
+				}
+			}
+			if hit {
+				out = append(out, [2]string{recv + "." + fd.Name.Name, c20Skeleton(fd)})
+			}
+		}
+	}
+	return out
+}
+
 func c20Squash(s string) string { return strings.Join(strings.Fields(s), " ") }
 
 func init() {
@@ -124,6 +237,26 @@ func init() {
 				sep = ""
 			}
 			fmt.Fprintf(w, "  (%s, %s, %v)%s\n", leanStr(p[0]+"."+p[1]), leanStr(p[2]), present, sep)
+		}
+		w.WriteString("]\n\n")
+		w.WriteString("/-- every exported function with a string parameter named like a cell / column / range reference: (function, skeleton, classification) -/\n")
+		w.WriteString("def exportedRefAPIs : List (String × String × String) := [\n")
+		disc := c20Discover()
+		for i, d := range disc {
+			cls := "UNCLASSIFIED"
+			if e, ok := c20Class[d[0]]; !ok {
+				fail("exported function %s takes a cell/column/range string (skeleton `%s`) and is not in the C20 path table", d[0], d[1])
+			} else {
+				cls = e[0]
+				if !strings.HasPrefix(cls, "unmodelled") && e[1] != d[1] {
+					fail("path skeleton of %s changed: `%s`, the C20 path table (%s) was written for `%s`", d[0], d[1], cls, e[1])
+				}
+			}
+			sep := ","
+			if i == len(disc)-1 {
+				sep = ""
+			}
+			fmt.Fprintf(w, "  (%s, %s, %s)%s\n", leanStr(d[0]), leanStr(d[1]), leanStr(cls), sep)
 		}
 		w.WriteString("]\n")
 	})
